@@ -1,6 +1,7 @@
 import QclibModel.Model.DriverLib
 import QclibModel.Model.FnPoints
 import QclibModel.Model.FloatOps
+import QclibModel.Gen.FnNPrime
 open Lean Qclib Qclib.Drv
 
 /-- key string → bit function (`z j` = character `j`). -/
@@ -19,6 +20,10 @@ def runOp (j : Json) : List String :=
     match fnPointsCode fnFloatAngles n pts N with
     | .error e => ["error_" ++ e ++ " ;"]
     | .ok c => ("nprime " ++ toString (fnNPrime N ss) ++ " ;") :: circLines c
+  | "gen_nprime" =>
+    -- double tie of the translation: the N' rule generated from the current source of fnpoints.py
+    let N : Option Int := if jBool j "hasN" then some (jInt j "N") else none
+    ["nprime " ++ toString (Qclib.Gen.FnNPrime.fn_n_prime (jInt j "max") (jBool j "opt_none") N) ++ " ;"]
   | other => ["UNKNOWN-OP " ++ other]
 
 def main : IO Unit := driverMain runOp
